@@ -18,8 +18,8 @@ ASSUME = ["phases are affine forms over two symbols; the exact derivative A + pi
           "entry by entry with sympy (DisCoPy's own subs/lambdify are C14's subject)",
           "grad raising NotImplementedError (parameter shift of multi-qubit rotations) is a refusal: no formal sum is "
           "returned, nothing is claimed; the evidence counts refusals",
-          "tensor diagrams with symbolic boxes and bubbles, and jacobians, are not covered by this check yet"]
-CONST = {"quick": {"PMaxLayers": 2, "replay": 220}, "thorough": {"PMaxLayers": 3, "replay": 6000}}
+          "jacobians over one variable (pure and default mode) and over both variables (default mode) are compared with the stacked exact derivatives; tensor diagrams with symbolic boxes and bubbles are not covered by this check yet"]
+CONST = {"quick": {"PMaxLayers": 2, "replay": 150}, "thorough": {"PMaxLayers": 3, "replay": 6000}}
 POINTS = [[1, 3], [2, 5], [0, 4], [7, 2]]
 
 
@@ -43,15 +43,29 @@ def eval_at(g, point, mixed):
 
 
 def observe(args):
-    pc, v, pt = args
+    pc, v, pt, with_jac = args
     x, y = c14.syms()
     S = {"x": x, "y": y}
-    rec = {"build": "", "pure": None, "pure_exc": "", "pure_terms": -1, "mixed": None, "mixed_exc": "", "mixed_terms": -1}
+    rec = {"jac1p": None, "jac1p_exc": "", "jac1m": None, "jac1m_exc": "", "jac2m": None, "jac2m_exc": "", "build": "", "pure": None, "pure_exc": "", "pure_terms": -1, "mixed": None, "mixed_exc": "", "mixed_terms": -1}
     try:
         d = c14.real_circuit(pc)
     except Exception as e:
         rec["build"] = type(e).__name__
         return rec
+    # jacobians: over one variable (pure and default mode) and over both variables (default mode)
+    for name, variables, kw in (("jac1p", [S[v]], {"mixed": False}), ("jac1m", [S[v]], {}), ("jac2m", [x, y], {})):
+        if not with_jac:
+            rec[name + "_exc"] = "skipped"
+            continue
+        try:
+            J = d.jacobian(variables, **kw)
+            rec[name] = eval_at(J, pt, name != "jac1p")
+            if rec[name] is None:
+                rec[name] = []
+        except NotImplementedError:
+            rec[name + "_exc"] = "NotImplementedError"
+        except Exception as e:
+            rec[name + "_exc"] = type(e).__name__
     for mode, kw in (("pure", {"mixed": False}), ("mixed", {})):
         try:
             g = d.grad(S[v], **kw)
@@ -96,6 +110,28 @@ def judge(o, e):
         return "gradient-of-independent-diagram-is-not-the-empty-sum"
     if not cmp(e["mg"]["A"], e["mg"]["B"], o["mixed"]):
         return "mixed-gradient-is-not-the-derivative-of-the-classical-quantum-map"
+    # jacobians stack the gradients in the order of the variables
+    if e["pure"] and not o["pure_exc"] and not o["jac1p_exc"]:
+        if not cmp(e["pg"]["A"], e["pg"]["B"], o["jac1p"] or None):
+            return "jacobian-over-one-variable-is-not-the-pure-gradient"
+    if not o["jac1m_exc"]:
+        if not cmp(e["mg"]["A"], e["mg"]["B"], o["jac1m"] or None):
+            return "jacobian-over-one-variable-is-not-the-gradient"
+    if not o["jac2m_exc"] and o["jac2m"] is not None:
+        rows = 4 ** e["ndom"]
+        def val(g):
+            return [core.ring_to_complex(a) + math.pi * core.ring_to_complex(b) for a, b in zip(g["A"], g["B"])]
+        gx, gy = val(e["mgx"]), val(e["mgy"])
+        cols = len(gx) // rows
+        want = []
+        for r in range(rows):
+            want += gx[r * cols:(r + 1) * cols] + gy[r * cols:(r + 1) * cols]
+        got = o["jac2m"]
+        if got == []:
+            got = [0.0] * len(want)
+        scale = max([abs(w) for w in want] + [1.0])
+        if len(got) != len(want) or max([abs(a - b) for a, b in zip(got, want)] + [0.0]) > 1e-9 * scale:
+            return "jacobian-does-not-stack-the-gradients-in-the-order-of-the-variables"
     return "ok"
 
 
@@ -113,10 +149,10 @@ def run(tier, seed, t0):
         os.remove(model["dump"])
         n_all = len(pcs)
         sample = pcs if len(pcs) <= c["replay"] else rnd.sample(pcs, c["replay"])
-        items = [(pc, rnd.choice(["x", "y"]), rnd.choice(POINTS)) for pc in sample]
+        items = [(pc, rnd.choice(["x", "y"]), rnd.choice(POINTS), k % 3 == 0) for k, pc in enumerate(sample)]
         with mp.get_context("fork").Pool(16) as pool:
             obs = pool.map(observe, items, chunksize=2)
-        rows = [{"pc": pc, "v": v, "pt": pt} for pc, v, pt in items]
+        rows = [{"pc": pc, "v": v, "pt": pt} for pc, v, pt, _ in items]
         tf = os.path.join(work, "trace.ndjson")
         core.write_ndjson(tf, rows)
         exp = core.validate("Trace_Grad", "Out", tf, work, constants=VC(), timeout=3000)["rows"]
@@ -127,8 +163,10 @@ def run(tier, seed, t0):
             refusals += (o["pure_exc"] == "NotImplementedError") + (o["mixed_exc"] == "NotImplementedError")
             clauses[clause] += 1
             if clause != "ok":
+                both = clause.startswith("jacobian-does-not-stack")
                 kinds = sorted(set(l["g"]["k"] for l in t["pc"]["layers"] if l["g"]["par"] and
-                                   (l["g"]["pf"]["cx"] if t["v"] == "x" else l["g"]["pf"]["cy"])))
+                                   ((l["g"]["pf"]["cx"] or l["g"]["pf"]["cy"]) if both else
+                                    (l["g"]["pf"]["cx"] if t["v"] == "x" else l["g"]["pf"]["cy"]))))
                 rejected.append({"clause": clause, "sig": "depends-through=%s | d/d%s at %s of %s forms=%s exc=%s" % (
                     ",".join(kinds), t["v"], t["pt"], qadapt.describe_mixed(t["pc"]),
                     [[l["g"]["pf"]["c0"], l["g"]["pf"]["cx"], l["g"]["pf"]["cy"]] for l in t["pc"]["layers"] if l["g"]["par"]],
@@ -148,7 +186,8 @@ def run(tier, seed, t0):
                "replay": {"parametrised_circuits_in_model": n_all, "gradient_cases": len(rows),
                           "refusals_NotImplementedError": refusals,
                           "pure_gradients_compared": sum(1 for o, e in zip(obs, exp) if e["pure"] and not o["pure_exc"]),
-                          "mixed_gradients_compared": sum(1 for o in obs if not o["mixed_exc"] and not o["build"])},
+                          "mixed_gradients_compared": sum(1 for o in obs if not o["mixed_exc"] and not o["build"]),
+                          "jacobians_compared": sum(1 for o in obs for n in ("jac1p", "jac1m", "jac2m") if not o[n + "_exc"])},
                "verdicts_by_clause": dict(clauses),
                "canary": {"corrupted": "a mixed gradient multiplied by 2", "rejected_with": "deviation above tolerance"}}
         return core.finish("C15", tier, seed, LEVEL, cov, rejected, t0, ASSUME)
@@ -161,7 +200,7 @@ def replay(path):
         tf = os.path.join(work, "one.ndjson")
         core.write_ndjson(tf, [t])
         e = core.validate("Trace_Grad", "Out", tf, work, constants=VC())["rows"][0]
-        clause = judge(observe((t["pc"], t["v"], t["pt"])), e)
+        clause = judge(observe((t["pc"], t["v"], t["pt"], True)), e)
         print("replayed: %s" % clause)
         if clause != "ok":
             print("VIOLATION property=C15 replay=%s clause=%s" % (path, clause))
